@@ -282,6 +282,13 @@ package keeper
 //@ ensures witnesses_are_coin_lists: err == NoErr ==> len(c1) >= 0 && len(c2) >= 0
 //@ ensures [C13] exactly_these_records_written: err == NoErr ==> raw == wrOwnerEarned(wrEarned(old(raw), provider, c1, len(c1)), ownerOf(old(raw), provider), c2, len(c2))
 //@ ensures error_changes_no_record: err != NoErr ==> raw == old(raw)
+//@ requires [C01] earned_records_well_formed: wfEarned(raw) && earnNonneg(raw)
+//@ ensures [C01,C02] pending_total_untouched: err == NoErr ==> (forall d Str :: {sumPend(raw, d)} sumPend(raw, d) == sumPend(old(raw), d))
+//@ ensures [C01,C02] earnings_total_grows_by_fee_minus_tax: err == NoErr ==> (forall d Str :: {sumEarn(raw, d)} sumEarn(raw, d) == sumEarn(old(raw), d) + amt(fee, d) - taxSum(fee, len(fee), d))
+//@ ensures [C01,C13] earned_records_stay_well_formed: err == NoErr ==> wfEarned(raw) && earnNonneg(raw)
+//@ after earnings_total_grows_by_fee_minus_tax assume provider_gets_fee_minus_tax exactly_these_records_written witnesses_are_coin_lists
+//@ after pending_total_untouched assume exactly_these_records_written witnesses_are_coin_lists
+//@ after earned_records_stay_well_formed assume provider_gets_fee_minus_tax exactly_these_records_written witnesses_are_coin_lists
 
 //@ func (Keeper).WithdrawEarnedFees
 //@ vars (keeper.Keeper).WithdrawEarnedFees: k=github.com/irismod/service/keeper.Keeper#0 ctx=github.com/cosmos/cosmos-sdk/types.Context#0 owner=github.com/cosmos/cosmos-sdk/types.AccAddress#0 provider=github.com/cosmos/cosmos-sdk/types.AccAddress#1 providerOwner=github.com/cosmos/cosmos-sdk/types.AccAddress#2 ownerEarnedFees=github.com/cosmos/cosmos-sdk/types.Coins#0 found=bool#0 withdrawFees=github.com/cosmos/cosmos-sdk/types.Coins#1 earnedFees=github.com/cosmos/cosmos-sdk/types.Coins#2 found=bool#1 iterator=github.com/cosmos/cosmos-sdk/types.Iterator#0 provider=github.com/cosmos/cosmos-sdk/types.AccAddress#3 withdrawAddr=github.com/cosmos/cosmos-sdk/types.AccAddress#4
@@ -303,6 +310,27 @@ package keeper
 //@                                   : wrOwnerEarned(clearPfx(old(raw), PEarned(provider)), owner, coinsSub(oe, paid), len(coinsSub(oe, paid))))
 //@ ensures [C13] owner_mode_resets_all_its_providers: err == NoErr && len(provider) == 0 ==>
 //@      raw == clearPfx(clrProv(old(raw), old(raw), POwnerProv(owner), itCount(old(raw), POwnerProv(owner))), POwnerEarned(owner))
+//@ requires [C01] escrow_exactly_backed: escInv(raw, bal) && earnNonneg(raw) && wfEarned(raw)
+//@ requires [C01] a16_withdrawal_address_is_an_ordinary_account: ordinary(withdrawAddrOf(raw, owner))
+//@ ensures [C01,C13] earned_records_stay_well_formed: err == NoErr ==> earnNonneg(raw) && wfEarned(raw)
+//@ ensures [C01] pending_total_untouched: err == NoErr ==> (forall d Str :: {sumPend(raw, d)} sumPend(raw, d) == sumPend(old(raw), d))
+//@ ensures [C01,C13] provider_withdrawal_pays_the_recorded_amounts: err == NoErr && len(provider) > 0 ==>
+//@      (forall d Str :: {amt(paid, d)} amt(paid, d) == earnedAt(old(raw), provider, d))
+//@ ensures [C01,C13] provider_withdrawal_extinguishes_exactly_what_it_pays: err == NoErr && len(provider) > 0 ==>
+//@      (forall d Str :: {sumEarn(raw, d)} sumEarn(raw, d) == sumEarn(old(raw), d) - earnedAt(old(raw), provider, d))
+//@ ensures [C01] escrow_exactly_backed_after_a_provider_withdrawal: err == NoErr && len(provider) > 0 ==> escInv(raw, bal)
+//@ after provider_withdrawal_pays_the_recorded_amounts assume pays_exactly_the_recorded_earnings
+//@ after provider_withdrawal_extinguishes_exactly_what_it_pays assume provider_mode_resets_exactly_its_records
+//@ after pending_total_untouched assume provider_mode_resets_exactly_its_records owner_mode_resets_all_its_providers
+//@ after earned_records_stay_well_formed assume provider_mode_resets_exactly_its_records owner_mode_resets_all_its_providers
+//@ after escrow_exactly_backed_after_a_provider_withdrawal assume provider_withdrawal_pays_the_recorded_amounts provider_withdrawal_extinguishes_exactly_what_it_pays pending_total_untouched to_the_owners_withdrawal_address
+//@ requires [C13] owner_total_is_the_sum_of_its_providers_earnings: len(provider) == 0 ==> ownerTotalOK(raw, owner)
+//@ ensures [C01,C13] owner_withdrawal_extinguishes_exactly_what_it_pays: err == NoErr && len(provider) == 0 ==>
+//@      (forall d Str :: {sumEarn(raw, d)} sumEarn(raw, d) == sumEarn(old(raw), d) - ownSum(old(raw), owner, itCount(old(raw), POwnerProv(owner)), d)) &&
+//@      (forall d Str :: {amt(paid, d)} amt(paid, d) == ownSum(old(raw), owner, itCount(old(raw), POwnerProv(owner)), d))
+//@ ensures [C01] escrow_exactly_backed_after_an_owner_withdrawal: err == NoErr && len(provider) == 0 ==> escInv(raw, bal)
+//@ after owner_withdrawal_extinguishes_exactly_what_it_pays assume pays_exactly_the_recorded_earnings owner_mode_resets_all_its_providers
+//@ after escrow_exactly_backed_after_an_owner_withdrawal assume owner_withdrawal_extinguishes_exactly_what_it_pays pending_total_untouched to_the_owners_withdrawal_address
 
 // ---------------------------------------------------------------- requests, responses, batches (C02, C08, C12, C16, C17)
 //@ func (Keeper).GetRequest
@@ -344,14 +372,12 @@ package keeper
 //@ preserves [C16,C08,C02,C01] pending_requests_stay_well_formed: actInv(raw)
 //@ after pending_requests_stay_well_formed_kept assume open_batches_count_their_pending_requests_kept
 //@ modifies raw, bal, supply, cblog
-//@ requires [C20] slash_and_refund_can_be_paid: requestFound(raw, requestID) ==> (!hasNeg(bindOf(raw, reqSvc(raw, requestID), reqProv(raw, requestID)).Deposit, slashBurn(raw, requestID)) &&
-//@      canPay(bal, depositAcc, slashBurn(raw, requestID)) && canPay(bankBurn(bal, depositAcc, slashBurn(raw, requestID)), requestAcc, reqFee(raw, requestID)))
 //@ preserves wf: WF(raw)
 //@ preserves [C03] deposits_in_custody: depInv(raw, bal)
-//@ requires [C04] binding_of_request_exists: requestFound(raw, requestID) ==> bindFound(raw, reqSvc(raw, requestID), reqProv(raw, requestID))
-//@ requires fee_nonneg: requestFound(raw, requestID) ==> (forall i Int :: {reqFee(raw, requestID)[i]} 0 <= i && i < len(reqFee(raw, requestID)) ==> reqFee(raw, requestID)[i].Amount >= 0)
-//@ requires stored_in_range: requestFound(raw, requestID) ==> rng_RequestContext(ctxOf(raw, reqCtxId(raw, requestID)))
-//@ requires consumer_ordinary: requestFound(raw, requestID) ==> ordinary(reqConsumer(raw, requestID))
+//@ requires [C04] binding_of_request_exists: requestFound(raw, requestID) && isActive(raw, requestID) ==> bindFound(raw, reqSvc(raw, requestID), reqProv(raw, requestID))
+//@ requires fee_nonneg: requestFound(raw, requestID) && isActive(raw, requestID) ==> (forall i Int :: {reqFee(raw, requestID)[i]} 0 <= i && i < len(reqFee(raw, requestID)) ==> reqFee(raw, requestID)[i].Amount >= 0)
+//@ requires stored_in_range: requestFound(raw, requestID) && isActive(raw, requestID) ==> rng_RequestContext(ctxOf(raw, reqCtxId(raw, requestID)))
+//@ requires consumer_ordinary: requestFound(raw, requestID) && isActive(raw, requestID) ==> ordinary(reqConsumer(raw, requestID))
 //@ ensures [C08,C05] accepted_only_from_its_provider_while_pending: err == NoErr ==> requestFound(old(raw), requestID) && addrEq(provider, reqProv(old(raw), requestID)) && isActive(old(raw), requestID)
 //@ ensures [C08] rejected_response_changes_nothing: (!requestFound(old(raw), requestID) || !addrEq(provider, reqProv(old(raw), requestID)) || !isActive(old(raw), requestID))
 //@      ==> err != NoErr && raw == old(raw) && bal == old(bal) && supply == old(supply) && cblog == old(cblog)
@@ -374,6 +400,13 @@ package keeper
 //@       k != KVol(reqConsumer(old(raw), requestID), reqSvc(old(raw), requestID), provider) && k != KCtx(reqCtxId(old(raw), requestID)) &&
 //@       k != KBind(reqSvc(old(raw), requestID), reqProv(old(raw), requestID)) && !(is_KEarned(k) && kea_prov(k) == provider) && k != KOwnerEarned(ownerOf(old(raw), provider)))
 //@      ==> raw[k] == old(raw)[k])
+//@ preserves [C01,C13] earned_records_well_formed: wfEarned(raw) && earnNonneg(raw)
+//@ requires [C01] escrow_exactly_backed: escInv(raw, bal)
+//@ ensures [C01,C02] pending_total_drops_by_the_fee: err == NoErr ==> (forall d Str :: {sumPend(raw, d)} sumPend(raw, d) == sumPend(old(raw), d) - amt(reqFee(old(raw), requestID), d))
+//@ ensures [C01,C02] earnings_total_grows_by_fee_minus_tax_unless_malformed: err == NoErr ==> (forall d Str :: {sumEarn(raw, d)} sumEarn(raw, d) == sumEarn(old(raw), d) +
+//@      (malformed(output) ? 0 : amt(reqFee(old(raw), requestID), d) - taxSum(reqFee(old(raw), requestID), len(reqFee(old(raw), requestID)), d)))
+//@ ensures [C01,C02] escrow_exactly_backed_kept: err == NoErr ==> escInv(raw, bal)
+//@ after escrow_exactly_backed_kept assume pending_total_drops_by_the_fee earnings_total_grows_by_fee_minus_tax_unless_malformed malformed_output_slashes_and_refunds_the_consumer good_response_pays_tax_and_never_slashes
 
 // ---------------------------------------------------------------- issuing a batch (C06, C01, C08, C12)
 //@ func (Keeper).FilterServiceProviders
@@ -717,6 +750,7 @@ package keeper
 //@      ctxOf(raw, reqContextID).BatchState == BATCHCOMPLETED && len(ctxOf(raw, reqContextID).Providers) == 1 && ordinary(ctxOf(raw, reqContextID).Consumer) &&
 //@      raw[KNewQ(ctxHeight(ctx), reqContextID)] == idVal(reqContextID) && raw[KNewH(reqContextID)] == hVal(ctxHeight(ctx)) && raw[KExpH(reqContextID)] == bnil
 //@ ensures [C10,C01] the_immediate_batch_is_the_only_batch_of_this_one_shot_context: err == NoErr ==> raw[KNewQ(ctxHeight(ctx), reqContextID)] == bnil && raw[KNewH(reqContextID)] == bnil
+//@ preserves [C01] escrow_exactly_backed: escInv(raw, bal) && earnNonneg(raw) && wfEarned(raw)
 
 // ---------------------------------------------------------------- genesis import of one binding (C19: price terms and ownership indexes are rebuilt)
 //@ func (Keeper).SetServiceBindingForGenesis
